@@ -38,7 +38,7 @@ func outpointEncoder(w io.Writer, val any, _ *[8]byte) error {
 
 // outpointDecoder is a TLV decoder for OutPoint.
 func outpointDecoder(r io.Reader, val any, _ *[8]byte, l uint64) error {
-	if v, ok := val.(*OutPoint); ok {
+	if v, ok := val.(*OutPoint); ok && l == 34 {
 		var o wire.OutPoint
 		if err := ReadElement(r, &o); err != nil {
 			return err
